@@ -199,7 +199,7 @@ def _train_bias_row_cholesky(
         return torch.zeros(nf)
 
     M = other[items, :]
-    regI = torch.eye(nf, device=other.device) * reg
+    regI = torch.eye(nf, dtype=other.dtype, device=other.device) * reg
     MMT = M.T @ M
     A = MMT + regI * len(items)
 
